@@ -49,6 +49,20 @@ fn v4(i: usize) -> SocketAddr {
 }
 fn v6(i: usize) -> SocketAddr {
     let mut o = [0u8; 16];
+    if i % 4 == 1 {
+        // IPv4-mapped (::ffff:a.b.c.d): still an 18-byte IPv6 contact on the wire
+        o[10] = 0xff;
+        o[11] = 0xff;
+        o[12] = 10;
+        o[15] = i as u8;
+        return SocketAddr::from((o, 6881));
+    }
+    if i % 4 == 3 {
+        // IPv4-compatible (::a.b.c.d)
+        o[12] = 10;
+        o[15] = i as u8;
+        return SocketAddr::from((o, 51413));
+    }
     o[0] = 0xfd;
     o[15] = i as u8;
     o[7] = 0xff;
@@ -242,7 +256,7 @@ fn unknown_key_variants(canon: &Val) -> Vec<Vec<u8>> {
     out
 }
 
-fn rejections() -> Vec<(String, Vec<u8>)> {
+pub fn rejections() -> Vec<(String, Vec<u8>)> {
     let id = Val::b(&[b'i'; 20]);
     let ih = Val::b(&[b'h'; 20]);
     let tok = Val::s("tok");
@@ -390,9 +404,18 @@ pub fn run(tier: Tier) -> Report {
         viol.extend(p.viol);
     }
     let rej = rejections();
+    crate::sim::install_quiet_panic_hook();
     for (label, bytes) in &rej {
         rep.add("evaluations", 1);
-        if let Ok(m) = Message::decode(bytes) {
+        let decoded = match std::panic::catch_unwind(|| Message::decode(bytes)) {
+            Ok(d) => d,
+            Err(_) => {
+                let class = label.split(' ').take(2).collect::<Vec<_>>().join("-");
+                viol.push((format!("decoder-panics {class}"), format!("{label}: decoding {} panics", String::from_utf8_lossy(bytes)), json!({"engine":"E3","check":"C13","bytes":hex(bytes),"expect":"reject"})));
+                continue;
+            }
+        };
+        if let Ok(m) = decoded {
             let class = label.split(' ').take(2).collect::<Vec<_>>().join("-");
             viol.push((format!("malformed-accepted {class}"), format!("{label}: {} accepted as {:?}", String::from_utf8_lossy(bytes), m), json!({"engine":"E3","check":"C13","bytes":hex(bytes),"expect":"reject"})));
         }
